@@ -42,11 +42,93 @@ def _parse_inter(tokens, numconv):
         names.append(name)
     return terms, names
 
+def _eval_request(head, cmd):
+    """(terms, env, ntok) of an `eval` / `evalm` request in exact rationals (as the oracle reads it), or None when the
+    request is not a plain evaluation with finite numbers (dense type with several names, eval_univariate on several
+    variables, non-finite numbers)"""
+    toks = head[1:]
+    if toks[0] == "S":
+        var = toks[1]
+        n = int(toks[2])
+        cs = [frac_of_bits(b) for b in toks[3:3 + n]]
+        i = 3 + n
+        if cmd == "evalm":
+            nb = int(toks[i]); i += 1
+            bl = []
+            for _ in range(nb):
+                name, i = read_string(toks, i)
+                bl.append((name, frac_of_bits(toks[i]))); i += 1
+            if len(bl) != 1:
+                return None
+            x = bl[-1][1]
+        else:
+            x = frac_of_bits(toks[i])
+        if x is None or any(c is None for c in cs):
+            return None
+        return [(c, [("v", Fraction(k))] if k else []) for k, c in enumerate(cs)], {"v": x}, len(toks)
+    if toks[0] != "I":
+        return None
+    terms, names = _parse_inter(toks[1:], lambda b: frac_of_bits(b))
+    i = 0
+    tokens = toks[1:]
+    nt = int(tokens[i]); i += 1
+    for _ in range(nt):
+        i += 1
+        nv = int(tokens[i]); i += 1
+        for _ in range(nv):
+            _, i = read_string(tokens, i); i += 1
+    m = int(tokens[i]); i += 1
+    for _ in range(m):
+        _, i = read_string(tokens, i)
+    i += 1
+    env = {}
+    if cmd == "evalm":
+        nb = int(toks[i]); i += 1
+        for _ in range(nb):
+            name, i = read_string(toks, i)
+            env[name] = frac_of_bits(toks[i]); i += 1
+    else:
+        if len(names) > 1:
+            return None
+        if names:
+            env[names[0]] = frac_of_bits(toks[i])
+    if any(v is None for v in env.values()):
+        return None
+    return terms, env, len(toks)
+
+
+def _values_agree(req, ti, tm):
+    """`ok f<a>` vs `ok f<b>` of an evaluation request, after the default rule (bit-equal / 1e-9 relative) failed.
+    The statement promises the sum of coefficient * prod value^exponent - up to rounding, a real number being promised of
+    a binary64 computation - so two evaluations agree when they differ by at most twice the bound the oracle judges each
+    of them against (`_tol`: relative to sum |term|, the natural scale under cancellation).  Where a factor or a partial
+    product leaves [2^-900, 2^900] (the oracle abstains: overflow to inf, `0 * inf`, precision lost in gradual underflow)
+    the ORDER of the multiplications decides what comes out and no order is promised: such requests carry no
+    information about the value clause and only Ok / Err / panic is compared there."""
+    head, _ = split_req(req)
+    try:
+        r = _eval_request(head, head[0])
+    except Exception:
+        return False
+    if r is None:
+        return False
+    terms, env, ntok = r
+    val, scale, amp = _value(terms, env)
+    if isinstance(val, tuple):
+        return val[0] == "range"
+    a, b = tok_frac(ti[1]), tok_frac(tm[1])
+    if a is None or b is None:
+        return False
+    return abs(a - b) <= 2 * _tol(ntok, scale, 0)
+
+
 def compare(req, impl, model):
     from __main__ import default_compare
     r = req.split()
     if r[0] in ("pe", "both"):
         return None
+    if impl.startswith("err") and model.startswith("err"):
+        return None      # the statement names no error kind ("accepted", "an error rather than a number")
     if r[0] == "parse" and model.startswith("ok I") and impl.startswith("ok I"):
         try:
             ti, ni = _parse_inter(impl.split()[2:], tok_float)
@@ -66,7 +148,12 @@ def compare(req, impl, model):
                 if not same_float(ei, em):
                     return f"term {k}: exponent of {v} impl {ei!r} model {em!r}"
         return None
-    return default_compare(req, impl, model)
+    d = default_compare(req, impl, model)
+    if d is not None and r[0] in ("eval", "evalm"):
+        ti, tm = impl.split(), model.split()
+        if len(ti) == 2 and len(tm) == 2 and ti[0] == "ok" and tm[0] == "ok" and _values_agree(req, ti, tm):
+            return None
+    return d
 
 def _num(neg, m, s, dm, ds):
     v = Fraction(m, 10 ** s)
@@ -250,7 +337,8 @@ def oracle(req, impl):
         val, scale, amp = _value(want, env)
         if isinstance(val, tuple):
             if val[0] == "missing":
-                if t[:2] != ["err", "VariableNotFound"]:
+                # "evaluating with a missing variable is an error rather than a number" - the statement does not name the kind
+                if t[:1] != ["err"]:
                     return f"variable {val[1]} is unbound but the answer is {impl}"
                 return None
             if t[0] != "ok":
@@ -343,7 +431,8 @@ def oracle(req, impl):
             else:
                 # eval_univariate: more than one declared variable is an error, otherwise the single variable is bound
                 if len(names) > 1:
-                    if t[:2] != ["err", "TooManyVariables"]:
+                    # one value for several variables: some variable is missing - an error, whichever kind
+                    if t[:1] != ["err"]:
                         return f"eval_univariate on a polynomial in {names} answered {impl}"
                     return None
                 x = frac_of_bits(toks[i])
@@ -354,7 +443,7 @@ def oracle(req, impl):
         val, scale, amp = _value(terms, env)
         if isinstance(val, tuple):
             if val[0] == "missing":
-                if t[:2] != ["err", "VariableNotFound"]:
+                if t[:1] != ["err"]:
                     return f"variable {val[1]} is unbound but the answer is {impl}"
                 return None
             if t[0] != "ok":
